@@ -13,6 +13,12 @@ package main
 //@   requires c != nil && c.cache != nil && c.tm != nil && c.config != nil && id != "" && id != "*"
 //@   modifies ghost cacheKnows, ghost managed, t.Addresses
 //@   assert at call (*Manager).Add#0: [cache-knows-the-target-before-its-updates-flow C01] has(cacheKnows, id) && arg1 == id && arg2 == t
+//@   assert at call (*Manager).Add#0: [started-with-its-configured-request C01] has(c.config.Request, t.Request) && arg3 == c.config.Request[t.Request]
+//@   assert at call (*Manager).Add#0: [tunnel-targets-are-addressed-by-name C01] (t.Dialer == "tunnel" ==> len(t.Addresses) == 1 && t.Addresses[0] == id)
+//@     && (t.Dialer != "tunnel" ==> t.Addresses == old(t.Addresses))
+//@   ensures [a-target-with-a-configured-request-is-handed-to-the-manager C01] t != nil && has(c.config.Request, t.Request)
+//@     ==> hits("call (*Manager).Add#0") == old(hits("call (*Manager).Add#0")) + 1
+//@   ensures [nil-target-and-unknown-request-refused C01] t == nil || !has(c.config.Request, t.Request) ==> res0 != nil
 //@   ensures [managed-targets-are-cacheKnows C01] res0 == nil ==> has(cacheKnows, id) && has(managed, id)
 //@   ensures [refused-target-leaves-the-cache-as-it-was C01] res0 != nil ==> (has(cacheKnows, id) <==> old(has(cacheKnows, id))) && (has(managed, id) <==> old(has(managed, id)))
 //@   ensures [other-targets-untouched C01] forall k string :: k != id ==> (has(cacheKnows, k) <==> old(has(cacheKnows, k))) && (has(managed, k) <==> old(has(managed, k)))
